@@ -25,7 +25,8 @@ META = {
             "are computed from identical inputs; the part computation reads nothing of the recipe but those fields and nothing of "
             "the cards that depends on the target list (mugrid/evolgrid). (5) The per-target loop of the runner carries no state "
             "between targets (no variable defined in one iteration is read in a later one) and indexes results by the target; "
-            "recipes of a target depend on that target and the atlas only.",
+            "recipes of a target depend on that target and the atlas only."
+            " The value stored into any inventory in the loops of managed.solve (parts, matching parts, operators) derives from the recipe / the parts only: its def-use closure reads nothing back from the stores.",
     "note": "That the numbers are bitwise equal is a consequence of (1)-(5) for a deterministic floating-point worker; scipy's "
             "quadrature and numba kernels are taken to be deterministic functions of their arguments.",
     "technique": "partial evaluation of the collector with a symbolic worker + effect analysis (who-writes) over the call graph + dataclass identity rule + loop-carried-state dataflow rule",
